@@ -61,19 +61,36 @@ fn do_term_subst<L: Language, N: Analysis<L>>(
     x: &AppliedId,
     t: &AppliedId,
 ) -> AppliedId {
+    do_term_subst_impl(eg, re, x, t).1
+}
+
+// returns (re, re[x := t]).
+// Whether a subterm is an occurrence of `x` is decided on the subterm as it stands in `re`: once the occurrences
+// below it have been replaced by `t` (which may mention the slot of `x`), it can be equal to `x` without being one.
+fn do_term_subst_impl<L: Language, N: Analysis<L>>(
+    eg: &mut EGraph<L, N>,
+    re: &RecExpr<L>,
+    x: &AppliedId,
+    t: &AppliedId,
+) -> (AppliedId, AppliedId) {
     let mut n = re.node.clone();
+    let mut n_subst = re.node.clone();
     let mut refs: Vec<&mut AppliedId> = n.applied_id_occurrences_mut();
+    let mut refs_subst: Vec<&mut AppliedId> = n_subst.applied_id_occurrences_mut();
     if CHECKS {
         assert_eq!(re.children.len(), refs.len());
     }
     for i in 0..refs.len() {
-        *(refs[i]) = do_term_subst(eg, &re.children[i], x, t);
+        let (c, c_subst) = do_term_subst_impl(eg, &re.children[i], x, t);
+        *(refs[i]) = c;
+        *(refs_subst[i]) = c_subst;
     }
     let app_id = eg.add_syn(n);
 
     if app_id == *x {
-        return t.clone();
+        (app_id, t.clone())
     } else {
-        app_id
+        let app_id_subst = eg.add_syn(n_subst);
+        (app_id, app_id_subst)
     }
 }
